@@ -17,6 +17,8 @@ type QGen struct {
 	// directives on variable definitions) occasionally contain a variable,
 	// which the grammar forbids: the document must then be rejected.
 	ConstFault bool
+	// Unicode: string values may contain non-ASCII, non-BMP, non-printable and control characters
+	Unicode bool
 }
 
 var qNames = []string{"a", "b", "c2", "_x", "on", "query", "mutation", "subscription", "fragment", "type", "null", "true", "false", "input", "Foo", "id", "x1", "extend", "schema"}
@@ -38,7 +40,12 @@ func (g *QGen) nameNot(bad ...string) string {
 	}
 }
 
+var qUnicodeStrings = []string{"é", "日本語", "\U0001F600 smile", "tag\U000E0001", "ls\u2028ps\u2029", "bell\x07", "nul\x00", "del\x7f", "\u00a0nbsp", "q\"é\\", "\ufeffbom", "esc\x1b[0m", "\"\"\"", "a\"\"\"b\n  c", "\\\"\"\"", "  \n x \n"}
+
 func (g *QGen) strValue() string {
+	if g.Unicode && g.R.Intn(2) == 0 {
+		return qUnicodeStrings[g.R.Intn(len(qUnicodeStrings))]
+	}
 	pool := []string{"", "s", "hello world", `q"q`, `b\s`, "tab\there", "nl\nx", "  lead", "trail  ", "ascii only ~", "#not comment", `""`, `\"""`, "a\r\nb", "/", "\b\f", "{}[]()$@!:=|&...", "0", "-1.5e3", "x\u0001y", "\u007f"}
 	return pool[g.R.Intn(len(pool))]
 }
